@@ -116,6 +116,8 @@ where
         if cell.time != self.current_timestamp.0 {
             // New cell, increment length
             self.length += 1;
+            // do not hand out what an earlier generation or occupant left behind
+            cell.value = Value::default();
         }
         // Update timestamp and key
         cell.time = self.current_timestamp.0;
